@@ -4,9 +4,9 @@
             R:<u>:<keyhex>:<mlen>:<hlen>:<ver>:<blen>:<sizes>   forced refetch
             P:<u>                                               purge
        sizes = comma separated append sizes or "-"
-     prints one token per op (M:<len>:<adler> | H:<hdrlen>:<len>:<adler> | F | P), then " | " and for every listed url
+     prints one token per op (M:<len>:<adler> | H:<len>:<adler> | F | P), then " | " and for every listed url
      the slot sizes of its chain (u=<n>,<n>,.. or u=-)
-   hits.tuples <kind> <keyhex> <mlen> <hlen> <ver>:<blen>...   store + hit of each version: <ver>:<hdrlen>:<len>:<adler> *)
+   hits.tuples <kind> <keyhex> <mlen> <ver>:<hlen>:<blen>...   store + hit of each version: T <ver>:<len>:<adler>... *)
 let kind_of = function
   | "mem" -> KMem | "shm" -> KShm | "rock" -> KRock | "ufs" -> KUfs | _ -> failwith "kind"
 let rec nat_of_int i = if i <= 0 then O else S (nat_of_int (i - 1))
@@ -20,7 +20,7 @@ let sop_of (s : string) : sop =
   | ["P"; u] -> SPurge (n_of_string u)
   | _ -> failwith "op"
 let sres_str = function
-  | RHit (h, l, s) -> "H:" ^ string_of_n h ^ ":" ^ string_of_n l ^ ":" ^ string_of_n s
+  | RHit (h, l, s) -> "H:" ^ string_of_n l ^ ":" ^ string_of_n s
   | RMiss (l, s) -> "M:" ^ string_of_n l ^ ":" ^ string_of_n s
   | RSwapFail -> "F"
   | RPurged -> "P"
@@ -39,17 +39,18 @@ let () =
         | Some l when l <> [] -> u ^ "=" ^ String.concat "," (List.map string_of_n l)
         | _ -> u ^ "=-" in
       String.concat " " (List.map sres_str res) ^ " | " ^ String.concat " " (List.map lay urls));
-  reg "hits.tuples" (fun (k :: key :: mlen :: hlen :: vers) ->
+  reg "hits.none" (fun _ -> "no-plan");
+  reg "hits.tuples" (fun (k :: key :: mlen :: vers) ->
       let kind = kind_of k in
       let keyb = bytes_of_hex key in
       let one s = match String.split_on_char ':' s with
-        | [v; blen] ->
+        | [v; hlen; blen] ->
           let q0 = seq_init kind (nat_of_int 64) (nat_of_int 4) in
-          let mk c = (N0, keyb, n_of_string mlen, n_of_string hlen, n_of_string v, n_of_string blen, []) in
-          let (u, kb, ml, hl, vv, bl, sz) = mk () in
+          let o r = (N0, keyb, n_of_string mlen, n_of_string hlen, n_of_string v, n_of_string blen, []) in
+          let (u, kb, ml, hl, vv, bl, sz) = o () in
           let (_, res) = seq_run kind q0 [SReload (u, kb, ml, hl, vv, bl, sz); SGet (u, kb, ml, hl, vv, bl, sz)] in
           (match res with
-           | [_; RHit (h, l, sm)] -> v ^ ":" ^ string_of_n h ^ ":" ^ string_of_n l ^ ":" ^ string_of_n sm
+           | [_; RHit (h, l, sm)] when h = hl -> v ^ ":" ^ string_of_n l ^ ":" ^ string_of_n sm
            | _ -> v ^ ":?")
         | _ -> failwith "ver" in
-      String.concat " " (List.map one vers))
+      "T " ^ String.concat " " (List.map one vers))
